@@ -137,6 +137,31 @@ def _evaluate(case):
         else:
             continue
         break
+    # 3b. two DIFFERENT selections of the same shuffle requested in one graph (a selection and its complement, and the first
+    # partition next to the whole shuffle): every row exactly once / the first partition's rows twice
+    if not viols and case.get("subsets") and n_out >= 2:
+        import dask_expr as dx
+
+        allrids = sorted(r for p_ in parts for r in p_["rid"].tolist())
+        first = list(range(max(1, n_out // 2)))
+        rest = [i for i in range(n_out) if i not in first]
+        for label, pieces, expect in (
+            ("selection+complement", [q.partitions[first], q.partitions[rest]], allrids),
+            ("partition0+whole", [q.partitions[[0]], q], sorted(allrids + parts[0]["rid"].tolist())),
+        ):
+            try:
+                both = dx.concat(pieces)
+                got = run_parts(both.optimize(fuse=case.get("fuse", False)).expr)
+                rids = sorted(r for g in got for r in g["rid"].tolist())
+            except CaseTimeout:
+                raise
+            except Exception as e:  # noqa: BLE001
+                viols.append({"kind": "two_selections_raise:" + exc_kind(e), "detail": f"{label}: {short(e)}"})
+                break
+            nsub += 1
+            if rids != expect:
+                viols.append({"kind": "two_selections_rows", "detail": f"{label}: {len(rids)} rows instead of {len(expect)}"})
+                break
     info["subsets"] = nsub
     info["nontrivial"] = case["n_in"] > 1 or n_out > 1
     info["staged"] = bool(case.get("max_branch") and case["n_in"] > case["max_branch"] and n_out > case["max_branch"])
